@@ -218,6 +218,50 @@ theorem findEventCandidates_spec (viable : List Nat)
   refine ⟨rfl, rfl, ?_, ?_, ?_, ?_, ?_, ?_, ?_⟩ <;> simp
 
 
+/-! ### completeness of `findEventCandidates` -/
+
+omit [Field K] [LinearOrder K] [IsStrictOrderedRing K] in
+/-- the classification of a transition depends only on the (non-zero) sign before, as long as the sign after differs -/
+theorem classify_dep (b a1 a2 : Int) (h1 : b ≠ a1) (h2 : b ≠ a2) :
+    classifyTransition b a1 = classifyTransition b a2 := by
+  unfold classifyTransition
+  simp [h1, h2]
+
+theorem fecStep_cands_grow (acc : Cands K) (e x : Nat) (h : x ∈ acc.cands) :
+    x ∈ (fecStep tenth accTs infos tLow eLow tHigh eHigh bias mw acc e).cands := by
+  unfold fecStep
+  simp only []
+  split
+  · simp [h]
+  · exact h
+
+/-- every viable trigger that shows a monitored sign change across the interval IS a candidate (no trigger is dropped) -/
+theorem findEventCandidates_complete (viable : List Nat) (e : Nat) (he : e ∈ viable)
+    (hm : Monitored infos eLow eHigh e) :
+    e ∈ (findEventCandidates tenth inf accTs infos viable tLow eLow tHigh eHigh bias mw).cands := by
+  unfold findEventCandidates
+  have key : ∀ (l : List Nat) (acc : Cands K), (e ∈ acc.cands ∨ e ∈ l) →
+      e ∈ (l.foldl (fecStep tenth accTs infos tLow eLow tHigh eHigh bias mw) acc).cands := by
+    intro l
+    induction l with
+    | nil => intro acc h; rcases h with h | h; exact h; simp at h
+    | cons x xs ih =>
+      intro acc h
+      simp only [List.foldl_cons]
+      apply ih
+      rcases h with h | h
+      · exact Or.inl (fecStep_cands_grow tenth accTs infos tLow eLow tHigh eHigh bias mw acc x e h)
+      · simp only [List.mem_cons] at h
+        rcases h with rfl | h
+        · left
+          unfold fecStep
+          simp only []
+          have hm' : maskTransition (classifyTransition (sign (eLow e)) (sign (eHigh e))) (infos e).mask ≠ 0 := hm
+          rw [if_pos hm']
+          simp
+        · exact Or.inr h
+  exact key viable _ (Or.inr he)
+
 /-! ## The localisation loop of `takeOneStep` -/
 
 variable (eval : K → Nat → K) (tReport : K)
@@ -275,6 +319,42 @@ theorem locIter_inv (t0 t1 : K) (first : List Nat) (s : Loc K)
       · rw [hm, if_pos hr] at q1; exact lt_irrefl _ q1
       · exact hr ⟨lt_trans hmid.1 q1, q2⟩
     · intro e he; exact specHi.sub e he
+
+/-- **locIter_nonempty** (completeness of one bisection step): a candidate that shows a monitored sign change across
+`(tLow, tHigh]` shows the SAME monitored transition across `(tLow, tMid]` or across `(tMid, tHigh]`, whatever the trigger
+values at the probe time — so the candidate list never becomes empty (the `assert(!newEventCandidates.empty())` of the
+C++ cannot fire, contrary to its TODO comment, for states satisfying the loop invariant). -/
+theorem locIter_nonempty (t0 t1 : K) (first : List Nat) (s : Loc K)
+    (h : LocInv inf infos mw eval t0 t1 first s) (hne : s.c.cands ≠ []) :
+    (locIter tenth inf accTs infos eval tReport mw s).c.cands ≠ [] := by
+  obtain ⟨h1, h2, h3, h4, h5, h6, V, hV⟩ := h
+  obtain ⟨e, he⟩ := List.exists_mem_of_ne_nil _ hne
+  have hmon := hV.mon e he
+  unfold locIter
+  simp only []
+  set bias' := (if s.side2 ≠ 0 ∧ s.side1 ≠ 0 then
+      (if s.side2 ≠ s.side1 then (1 : K) else if s.side1 < 0 then s.bias / 2 else s.bias * 2) else s.bias) with hb
+  set tMid := (if s.tLow < tReport ∧ tReport < s.tHigh then tReport else s.c.earliest) with hm
+  split
+  · rename_i hlo; exact hlo
+  · rename_i hlo
+    simp only []
+    -- lower half found nothing: then the sign at tMid equals the sign at tLow, and the upper half keeps the candidate
+    have hsame : sign (s.eLow e) = sign (eval tMid e) := by
+      by_contra hdiff
+      apply hlo
+      have : Monitored infos s.eLow (eval tMid) e := by
+        unfold Monitored at hmon ⊢
+        have hne2 : sign (s.eLow e) ≠ sign (s.eHigh e) := by
+          intro heq; apply hmon; unfold classifyTransition; simp [heq, maskTransition]
+        rw [classify_dep _ _ _ hdiff hne2]; exact hmon
+      exact List.ne_nil_of_mem
+        (findEventCandidates_complete tenth inf accTs infos s.tLow s.eLow tMid (eval tMid) bias' mw s.c.cands e he this)
+    have : Monitored infos (eval tMid) s.eHigh e := by
+      unfold Monitored at hmon ⊢
+      rw [← hsame]; exact hmon
+    exact List.ne_nil_of_mem
+      (findEventCandidates_complete tenth inf accTs infos tMid (eval tMid) s.tHigh s.eHigh bias' mw s.c.cands e he this)
 
 /-- the `do … while` loop: whatever the trigger values at the probe times, when it exits the window satisfies the
 invariant, is no wider than `narrowestWindow`, and does not contain the report time in its interior -/
@@ -352,6 +432,43 @@ theorem localize_spec (n : Nat) (t0 t1 : K) (fuel : Nat) (r : LocResult K)
         have := hV.mon e he
         rw [i1.elo, i1.ehi] at this
         exact this
+
+/-- **localize_reports_nonempty** (completeness): an event report always lists at least one trigger — for any trigger
+functions.  Together with `localize_spec` (every listed trigger changes sign across the reported window) this is the
+clause "the window brackets a crossing". -/
+theorem localize_reports_nonempty (n : Nat) (t0 t1 : K) (fuel : Nat) (r : LocResult K)
+    (h01 : t0 < t1) (hmw : 0 < mw) (ht : 0 < tenth) (ht2 : 2 * tenth ≤ 1) (hinf : t1 ≤ inf)
+    (e : localize tenth inf accTs infos eval n t0 t1 tReport mw fuel = .event r) : r.c.cands ≠ [] := by
+  have specFirst := findEventCandidates_spec tenth inf accTs infos t0 (eval t0) t1 (eval t1) 1 mw (List.range n)
+    h01 hmw ht ht2 hinf
+  have loopNE : ∀ (fuel : Nat) (s r : Loc K),
+      LocInv inf infos mw eval t0 t1
+        (findEventCandidates tenth inf accTs infos (List.range n) t0 (eval t0) t1 (eval t1) 1 mw).cands s →
+      s.c.cands ≠ [] → locLoop tenth inf accTs infos eval tReport mw fuel s = some r → r.c.cands ≠ [] := by
+    intro fuel
+    induction fuel with
+    | zero => intro s r _ _ e; simp [locLoop] at e
+    | succ k ih =>
+      intro s r hs hne e
+      have i1 := (locIter_inv tenth inf accTs infos mw eval tReport t0 t1 _ s hmw ht ht2 hinf hs hne).1
+      have i2 := locIter_nonempty tenth inf accTs infos mw eval tReport t0 t1 _ s hs hne
+      unfold locLoop at e
+      simp only [] at e
+      split at e
+      · exact ih _ _ i1 i2 e
+      · injection e with e1; subst e1; exact i2
+  unfold localize at e
+  simp only [] at e
+  split at e
+  · cases e
+  · rename_i hne
+    split at e
+    · injection e with e1; subst e1; exact hne
+    · split at e
+      · cases e
+      · rename_i s hs
+        injection e with e1; subst e1
+        exact loopNE fuel _ s ⟨le_refl _, h01, le_refl _, rfl, rfl, fun e he => he, ⟨_, specFirst⟩⟩ hne hs
 
 /-! ## Event ordering (`calcEventOrder` / `setTriggeredEvents`) -/
 
@@ -468,7 +585,8 @@ end Field
 
 /-! ## TimeStepper dispatch and non-vacuity -/
 
-/-- every status the integrator can return is dispatched, and only event-type returns reach a handler:
+/-- (definitional: a table lookup; the real switch also tests `getTime() >= nextScheduledReport`, `reportAllSignificantStates`
+and `getTime() >= time`, which are NOT modelled) every status the integrator can return is dispatched, and only event-type returns reach a handler:
 triggered → Triggered, scheduled → Scheduled, time advanced → TimeAdvanced, end → Termination -/
 theorem tsDispatch_total :
     (∀ st, 1 ≤ st → st ≤ 7 → (tsDispatch st).isSome) ∧
